@@ -691,6 +691,18 @@ def normalize(e):
                     len(rv['ch']) == 2 and peel(rv['ch'][1]).get('local') == errarm[0]['pat']['ch'][0].get('local'):
                 return {'k': 'Match', 'src': 'TryDesugar', 'ch': [e['ch'][0]], 'arms': e['arms'],
                         'sp': e.get('sp'), 'id': e.get('id'), 'ty': e.get('ty'), 'manual_try': True}
+    # `o.map_or(d, |x| x)` is `o.unwrap_or(d)`
+    if k == 'MethodCall' and e.get('method') == 'map_or' and len(e.get('ch', [])) == 3 and \
+            callee_is(e, 'Option::map_or'):
+        c_ = peel(e['ch'][2])
+        if c_.get('k') == 'Closure' and len(c_.get('params', [])) == 1 and c_['params'][0].get('k') == 'Binding':
+            b_ = peel(c_['ch'][0])
+            while b_.get('k') == 'Block' and not b_.get('stmts') and 'expr' in b_:
+                b_ = peel(b_['expr'])
+            if b_.get('k') == 'Path' and b_.get('res') == 'local' and b_.get('local') == c_['params'][0]['local']:
+                return {'k': 'MethodCall', 'method': 'unwrap_or',
+                        'callee': 'std::option::Option::<T>::unwrap_or', 'ch': [e['ch'][0], e['ch'][1]],
+                        'sp': e.get('sp'), 'id': e.get('id'), 'ty': e.get('ty')}
     # `match o { Some(p) => A, None => B }` is `if let Some(p) = o { A } else { B }`
     if k == 'Match' and not e.get('src', '').endswith('Desugar') and len(e.get('arms', [])) == 2 and \
             not any('guard' in a for a in e['arms']):
